@@ -80,44 +80,55 @@ def doc_grid(lc):
     return np.arange(0, 3.2, 0.2, dtype="float64")
 
 
+LC_SERIES = {
+    "a": [120, 340, 560, 410, 230, 90, 310, 620, 480, 150],
+    "b": [1000, -3000, 1400, 900, 1800, 700, 1500, 1100],
+    "c": [5, 9, 2, 8, 1, 9, 3, 7, 2, 8, 1, 9],
+}
+
+
 def w_lc(w, cfg):
-    """(d) grid chosen from the lag-1 correlation: -2..1.0 where lc > 0.5, 0..3.0 elsewhere (incl. NaN)."""
-    valid, lc = cfg["valid"], cfg["lc"]
-    n = len(valid)
-    lcv = {"nan": V.NAN}.get(lc, lc)
-    tag = f"ws2doptvplc[lc={lc}]"
-    kp = {"C04-lc-nan": z3.BoolVal(lc == "nan")}
+    """(d) grid chosen from the lag-1 correlation: -2..1.0 where lc > 0.5, 0..3.0 elsewhere (incl. NaN).
 
-    def build(abstract):
-        it = S.new_interp()
-        if abstract:
-            S.abstract_ws2d(it)
-        px = S.Pixel(n, valid)
-        nd, p = z3.Int("nd"), z3.Real("p")
-        facts = px.facts(nd) + [p > 0, p < 1]
-        it.assume(*facts)
-        st = State()
-        cells = [x if v else nd for x, v in zip(px.xs, px.valid)]
-        res = S.call_kernel(it, st, "ws2doptvplc", {"y": cells, "nodata": z3.ToReal(nd), "p": p,
-                                                    "lc": lcv if lc == "nan" else V.fr(float(lc))})
-        grid = [V.fr(float(x)) for x in doc_grid(float("nan") if lc == "nan" else float(lc))]
-        claims = vcurve_claims(it, st, "ws2doptvplc", px, nd, p, grid, res, tag)
-        claims = [(nm, cl, dict(kw, known_preds=kp)) for nm, cl, kw in claims]
+    The choice depends on lc alone, so lc is the unknown (every real, or NaN) and the series / p are configuration; values are
+    kept as ite-trees over `lc > 0.5` with constant leaves (regime 2), hence the whole V-curve sweep stays exact. Differential
+    claim: same lambda and band as ws2doptvp on the documented grid; and lambda is a midpoint of that grid."""
+    data, lcmode, pv = LC_SERIES[cfg["series"]], cfg["lc"], cfg["p"]
+    nodata = -3000
+    n = len(data)
+    it = S.new_interp(policy="exact", prune="pc")
+    it.A.tree_mode = True
+    lc = z3.Real("lc")
+    st = State()
+    lcv = V.NAN if lcmode == "nan" else lc
+    res = S.call_kernel(it, st, "ws2doptvplc", {"y": list(data), "nodata": nodata, "p": V.fr(pv), "lc": lcv})
+    w.res.encoded.update(it.encoded)
+    import numpy as np
+    g_hi = [V.fr(float(x)) for x in np.arange(-2, 1.2, 0.2, dtype="float64")]
+    g_lo = [V.fr(float(x)) for x in np.arange(0, 3.2, 0.2, dtype="float64")]
+    if lcmode == "nan":
+        grid = g_lo
+        cond = None
+    else:
+        cond = lc > V.to_z3(V.fr(0.5))
+        grid = [it.A.ite(cond, a, b) for a, b in zip(g_hi, g_lo)]
+    ref = S.call_kernel(it, State(), "ws2doptvp", {"y": [V.fr(float(v)) for v in data], "nodata": nodata, "p": V.fr(pv), "llas": grid})
 
-        def conc(m):
-            return {"kernel": "ws2doptvplc", "data": [C.model_value(m, x) if v else None for x, v in zip(px.xs, px.valid)],
-                    "nodata": C.model_value(m, nd), "p": C.model_value(m, p), "lc": lc}
-        return {"assume": facts + it.cast_assumptions, "lemmas": list(it.A.lemmas), "claims": claims, "conc": conc,
-                "encoded": dict(it.encoded), "facts": facts}
-    S.two_stage(w, build, inline=False)
+    def conc(m):
+        return {"kernel": "ws2doptvplc", "data": [None if v == nodata else v for v in data], "nodata": nodata, "p": pv,
+                "lc": "nan" if lcmode == "nan" else C.model_value(m, lc), "series": cfg["series"]}
+    tag = f"ws2doptvplc[lc={'NaN' if lcmode == 'nan' else 'all reals'},{cfg['series']},p={pv}]"
+    mids_hi = [it.A.pow10((g_hi[k] + g_hi[k + 1]) / 2) for k in range(len(g_hi) - 1)]
+    mids_lo = [it.A.pow10((g_lo[k] + g_lo[k + 1]) / 2) for k in range(len(g_lo) - 1)]
+    in_hi = z3.Or(*[S.eq(res["lopt"], mk) for mk in mids_hi])
+    in_lo = z3.Or(*[S.eq(res["lopt"], mk) for mk in mids_lo])
+    claim = in_lo if cond is None else z3.If(cond, in_hi, in_lo)
+    w.discharge(f"{tag}.lambda_is_midpoint_of_documented_grid", [], claim, concretize=conc, sample=True)
+    w.discharge(f"{tag}.lambda_as_ws2doptvp_on_documented_grid", [], S.eq(res["lopt"], ref["lopt"]), concretize=conc)
+    w.discharge(f"{tag}.band_as_ws2doptvp_on_documented_grid", [], S.all_eq(res["out"], ref["out"]), concretize=conc)
 
 
-class DatasetStub:
-    def __init__(self, name, da):
-        self.vars = {name: da}
-
-    def pysym_setitem(self, it, st, key, v):
-        self.vars[key] = v
+DatasetStub = X.DatasetStub
 
 
 def w_accessor(w, cfg):
@@ -136,23 +147,11 @@ def w_accessor(w, cfg):
     rec = []
     da = X.StubDA(cells, ("time",), list(range(n)), dtype="int16", attrs={"nodata": nd}, name=cfg.get("name"))
 
-    def to_dataset(it_, st_, name=None):
-        return DatasetStub(name, da_out[0])
     cls = it.get_function("hdc.algo.accessors", "WhittakerSmoother")
     cls.link_bases(it)
     inst = Instance(cls)
     inst.fields["_obj"] = da
-    base_apply = X.make_apply_ufunc(C.make_out, rec)
-    da_out = [None]
-
-    @native
-    def apply_ufunc(it_, st_, func, *args, **kw):
-        r = base_apply(it_, st_, func, *args, **kw)
-        if isinstance(r, tuple):
-            da_out[0] = r[0]
-            r[0].m_to_dataset = lambda it2, st2, name=None: DatasetStub(name, r[0])
-        return r
-    it.lib_overrides["xarray.apply_ufunc"] = apply_ufunc
+    it.lib_overrides["xarray.apply_ufunc"] = X.make_apply_ufunc(C.make_out, rec)
 
     @native
     def log10(it_, st_, a):
@@ -208,9 +207,10 @@ def configs(tier):
                     if kname == "ws2doptvp" and grid > (3 if tier == "quick" else 4):
                         continue
                     cf.append({"kind": "kernel", "kernel": kname, "valid": valid, "grid": grid, "inline": kname == "ws2doptv" and grid <= 3})
-    for lc in (0.7, 0.3, 0.5, "nan"):
-        for valid in ([True, True, True, True], [True, False, True, True]):
-            cf.append({"kind": "lc", "valid": valid, "lc": lc})
+    for series in LC_SERIES:
+        for lc in ("real", "nan"):
+            for pv in ((0.9,) if tier == "quick" else (0.9, 0.5, 0.1)):
+                cf.append({"kind": "lc", "series": series, "lc": lc, "p": pv})
     for mode in ("p", "nop", "lc"):
         for name in (None, "ndvi"):
             cf.append({"kind": "accessor", "valid": [True, True, False, True, True], "mode": mode, "name": name})
